@@ -261,6 +261,9 @@ class IdentityLinearOperator(ConstantDiagLinearOperator):
         if lhs is None:
             return self._maybe_reshape_rhs(rhs)
         else:
+            # broadcast with the operator's own batch shape, as the lhs=None branch and DiagLinearOperator do
+            rhs = self._maybe_reshape_rhs(rhs)
+            lhs = self._maybe_reshape_rhs(lhs)
             sqrt_inv_matmul = lhs @ rhs
             inv_quad = lhs.pow(2).sum(dim=-1)
             return sqrt_inv_matmul, inv_quad
